@@ -1,4 +1,5 @@
 import StepModel.P21.ReaderLemmas3
+import StepModel.Generated.StepFileGen
 /-!
 The text of one DATA-section entry as `SkipInstance` (src/clstepcore/read_func.cc) sees it, and the fact that the skip
 consumes exactly that text and its terminating `;` — whatever the entry's string literals and comments contain
@@ -12,13 +13,16 @@ namespace StepModel.SkipEntry
 open StepModel StepModel.IStream StepModel.P21 StepModel.P21.Lemmas StepModel.P21.Grammar StepModel.P21.RLemmas
 
 /-- what stands between `#id` (inclusive) and the terminating `;` of an entry: ordinary characters (anything but `;`, an
-    apostrophe, `/` and NUL), comments with any body that does not close early, and string literals of the Part 21
+    apostrophe, `/` and NUL), comments with any body that does not close early and is not longer than what `ReadComment`
+    reads (`Generated.maxCommentLength`: beyond it the code abandons the comment and skips to the NEXT `;`, which the reader
+    model does not follow), and string literals of the Part 21
     grammar (any body: `;`, doubled apostrophes, `#`, parentheses, `/*`, control directives) followed by a character that
     is not an apostrophe (in a record: `,` or `)`) -/
 inductive EntryText : List Byte → Prop
   | nil : EntryText []
   | plain {c : Byte} {t : List Byte} : plainc c = true → EntryText t → EntryText (c :: t)
-  | comment {body t : List Byte} : NoClose body → EntryText t → EntryText ((47 :: 42 :: (body ++ [42, 47])) ++ t)
+  | comment {body t : List Byte} : NoClose body → body.length ≤ Generated.maxCommentLength → EntryText t →
+      EntryText ((47 :: 42 :: (body ++ [42, 47])) ++ t)
   | string {b : List Byte} {y : Byte} {t : List Byte} : StringBody b → y ≠ 39 → EntryText (y :: t) →
       EntryText ((39 :: (b ++ [39])) ++ y :: t)
 
@@ -26,7 +30,7 @@ theorem EntryText.passes {t : List Byte} (h : EntryText t) : Passes t := by
   induction h with
   | nil => exact Passes.nil
   | @plain c t hc _ ih => exact Passes.append (a := [c]) (Passes.plain c hc) ih
-  | comment hb _ ih => exact Passes.append (Passes.comment _ hb) ih
+  | comment hb _ _ ih => exact Passes.append (Passes.comment _ hb) ih
   | string hb hy _ ih => exact PassesS.append_cons (PassesS.string _ hb) ih hy
 
 /-- `SkipInstance` on an entry text followed by `;`: the stream stands right after that `;`, nothing else was consumed -/
